@@ -244,6 +244,27 @@ def check_component_row(core, parser, version, dt, crow, host, rec):
         rec.violation('malformed-table-row' if not crow.ok else 'wrong-position', case,
                       {'encoded': er[:200], 'expected_component': crow.num}, row=rowkey)
         return
+    # the same position in a field that is a leaf by the tables and is given this datatype (a TOLERANT override), through
+    # the constructor and through the setter
+    for how in ('ctor', 'setter'):
+        try:
+            if how == 'ctor':
+                f3 = core.Field('PID_1', datatype=dt, version=version)
+            else:
+                f3 = core.Field('PID_1', version=version)
+                f3.datatype = dt
+            setattr(f3, crow.name.lower(), val)
+            er3 = f3.to_er7()
+        except Exception as e:
+            if crow.ok:
+                rec.violation('populate-or-encode-raised:%s' % type(e).__name__, dict(case, host='PID_1 overridden (%s)' % how),
+                              {'exc': repr(e)[:200]}, row=rowkey)
+            return
+        rec.count('component_positions_tokenized_in_overridden_leaf_fields')
+        if er7ref.leaves([er7ref.split_field(er3, ec)]) != [((1, 1, crow.num, 1), val)] and crow.ok:
+            rec.violation('wrong-position', dict(case, host='PID_1 overridden (%s)' % how),
+                          {'encoded': er3[:200], 'expected_component': crow.num}, row=rowkey)
+            return
     if host:
         try:
             f2 = parser.parse_field(er, name=host, version=version)
@@ -343,8 +364,19 @@ def check_open(core, parser, version, seg, idxs, level, rec):
     vals = {i: 'v%d' % i for i in idxs}
     try:
         s = core.Segment(seg, version=version, validation_level=level)
-        for i in idxs:
-            setattr(s, '%s_%d' % (seg.lower(), i), vals[i])
+        for k, i in enumerate(idxs):
+            # (a field number may be written with leading zeros: zzz_07 is the seventh field, or it is refused)
+            spelled = '%s_%d' % (seg.lower(), i) if (k + len(idxs)) % 3 else '%s_%02d' % (seg.lower(), i)
+            try:
+                setattr(s, spelled, vals[i])
+            except Exception:
+                if spelled.endswith('_%d' % i):
+                    raise
+                rec.count('open_ended_zero_padded_names_refused')
+                setattr(s, '%s_%d' % (seg.lower(), i), vals[i])
+            else:
+                if not spelled.endswith('_%d' % i):
+                    rec.count('open_ended_zero_padded_names_accepted')
         er = s.to_er7()
         name, fields = er7ref.tokenize_segment(er, er7ref.STD)
         lv = er7ref.leaves(fields)
